@@ -773,4 +773,110 @@ impl<T: ConstrainedFuzzyHashType> GeneratorType for Generator<T> {
     }
 }
 
+/// Verification hooks (compiled only with `--cfg fast_tlsh_verif`).
+///
+/// Raw read / write access to the generator's internal state so that an
+/// external harness can compare it with a formal model and can start from
+/// states that would otherwise need multi-GiB inputs to reach.
+#[cfg(fast_tlsh_verif)]
+#[allow(missing_docs, clippy::missing_docs_in_private_items)]
+pub mod verif {
+    use super::*;
+
+    /// Raw access to the state of a generator.
+    pub trait GeneratorStateAccess {
+        /// Copies the physical bucket array, the checksum and the tail out.
+        ///
+        /// Returns `(physical bucket count, checksum size, len, tail_len)`.
+        fn verif_get_state(
+            &self,
+            buckets: &mut [u32; 256],
+            checksum: &mut [u8; 3],
+            tail: &mut [u8; WINDOW_SIZE - 1],
+        ) -> (usize, usize, u32, u32);
+
+        /// Overwrites the state.  `buckets` must have at least as many
+        /// entries as the physical bucket array, `checksum` at least the
+        /// checksum size; `tail` holds the valid tail bytes (0 to 4).
+        fn verif_set_state(&mut self, buckets: &[u32], checksum: &[u8], tail: &[u8], len: u32);
+    }
+
+    impl<
+            const SIZE_CKSUM: usize,
+            const SIZE_BODY: usize,
+            const SIZE_BUCKETS: usize,
+            const SIZE_IN_BYTES: usize,
+            const SIZE_IN_STR_BYTES: usize,
+        > GeneratorStateAccess
+        for inner::Generator<SIZE_CKSUM, SIZE_BODY, SIZE_BUCKETS, SIZE_IN_BYTES, SIZE_IN_STR_BYTES>
+    where
+        FuzzyHashBodyData<SIZE_BODY>: FuzzyHashBody,
+        FuzzyHashBucketsInfo<SIZE_BUCKETS>: FuzzyHashBucketMapper<
+            RawBodyType = [u8; SIZE_BODY],
+            RawBucketType = [u32; SIZE_BUCKETS],
+        >,
+        FuzzyHashChecksumData<SIZE_CKSUM, SIZE_BUCKETS>: FuzzyHashChecksum,
+        VerboseFuzzyHashParams<
+            SIZE_CKSUM,
+            SIZE_BODY,
+            SIZE_BUCKETS,
+            SIZE_IN_BYTES,
+            SIZE_IN_STR_BYTES,
+        >: ConstrainedVerboseFuzzyHashParams,
+        LengthProcessingInfo<SIZE_BUCKETS>: ConstrainedLengthProcessingInfo,
+    {
+        fn verif_get_state(
+            &self,
+            buckets: &mut [u32; 256],
+            checksum: &mut [u8; 3],
+            tail: &mut [u8; WINDOW_SIZE - 1],
+        ) -> (usize, usize, u32, u32) {
+            let phys = self.buckets.buckets.len();
+            buckets[..phys].copy_from_slice(&self.buckets.buckets[..]);
+            checksum[..SIZE_CKSUM].copy_from_slice(self.checksum.data());
+            *tail = self.tail;
+            (phys, SIZE_CKSUM, self.len, self.tail_len)
+        }
+
+        fn verif_set_state(&mut self, buckets: &[u32], checksum: &[u8], tail: &[u8], len: u32) {
+            let phys = self.buckets.buckets.len();
+            self.buckets.buckets[..].copy_from_slice(&buckets[..phys]);
+            let mut ck = [0u8; SIZE_CKSUM];
+            ck.copy_from_slice(&checksum[..SIZE_CKSUM]);
+            self.checksum = FuzzyHashChecksumData::from_raw(&ck);
+            self.tail = [0; WINDOW_SIZE - 1];
+            self.tail[..tail.len()].copy_from_slice(tail);
+            self.tail_len = tail.len() as u32;
+            self.len = len;
+        }
+    }
+
+    macro_rules! outer_state_access {
+        ($($ty:ty),*) => {
+            $(
+                impl GeneratorStateAccess for Generator<$ty> {
+                    fn verif_get_state(
+                        &self,
+                        buckets: &mut [u32; 256],
+                        checksum: &mut [u8; 3],
+                        tail: &mut [u8; WINDOW_SIZE - 1],
+                    ) -> (usize, usize, u32, u32) {
+                        self.inner.verif_get_state(buckets, checksum, tail)
+                    }
+                    fn verif_set_state(&mut self, buckets: &[u32], checksum: &[u8], tail: &[u8], len: u32) {
+                        self.inner.verif_set_state(buckets, checksum, tail, len)
+                    }
+                }
+            )*
+        };
+    }
+    outer_state_access!(
+        crate::hashes::Short,
+        crate::hashes::Normal,
+        crate::hashes::NormalWithLongChecksum,
+        crate::hashes::Long,
+        crate::hashes::LongWithLongChecksum
+    );
+}
+
 pub(crate) mod tests;
